@@ -154,6 +154,60 @@ def check_structure_hex(ctx, L, ex):
         same(ctx, "auto-binary", got, base, dict(case_payload(case), container="auto-binary"), f"{case.type} {d.hex()[:200]} through Auto")
 
 
+def check_message_frontends(ctx, L, ex):
+    """A single command / response (also with an encrypted parameter area) or structure through every front end with the
+    same arguments - command code, encryption expectation, mode and a caller-chosen root path must all be passed through."""
+    from tpmstream.io.auto import Auto
+    from tpmstream.io.hex import Hex
+    from tpmstream.io.pcapng import Pcapng
+    from tpmstream.io.swtpm_log import SWTPMLog
+
+    case, data = ex
+    O.reset_state()
+    root = data.draw(st.sampled_from(["", "", "msg", ".capture.entry"]))
+    strict = data.draw(st.booleans())
+    kw = dict(command_code=case.cc, enc=case.enc, strict=strict, root=root)
+    base = summary(O.run_decode(case.type, case.data, **kw))
+    payload = dict(case_payload(case), root=root, strict=strict)
+    what = f"{case.type} {case.data.hex()[:200]} cc={case.cc} enc={case.enc} root_path={root!r} ({'strict' if strict else 'warn'})"
+    ctx.case(("msg-frontends", case.type, case.cc, case.enc, root, strict, case.data), bool(root) or case.enc or case.cc is not None)
+    ctx.count("message-through-all-frontends")
+    text = data.draw(containers.hex_text(case.data))[0]
+    if not same(ctx, "hex:arguments", summary(O.run_decode(case.type, text.encode(), marshal=Hex.marshal, **kw)), base, dict(payload, container="hex", text=text), what):
+        return
+    log = data.draw(containers.swtpm_log([case.data]))[0] if case.data else None
+    if log is not None and not same(ctx, "swtpm-log:arguments", summary(O.run_decode(case.type, log.encode(), marshal=SWTPMLog.marshal, **kw)), base, dict(payload, container="swtpm", text=log), what):
+        return
+    if case.type in ("Command", "Response") and len(case.data) >= 10:
+        cap, noise = data.draw(containers.pcapng_capture([case.data]))
+        if noise.pop("carried") == case.data:
+            if not same(ctx, "pcapng:arguments", summary(O.run_decode(case.type, cap, marshal=Pcapng.marshal, **kw)), base, dict(payload, container="pcapng", capture=cap), what):
+                return
+            if not same(ctx, "auto-pcapng:arguments", summary(O.run_decode(case.type, cap, marshal=Auto.marshal, **kw)), base, dict(payload, container="auto-pcapng", capture=cap), what):
+                return
+    d = case.data
+    if len(d) >= 2 and d[:2] != b"\x0a\x0d" and not (chr(d[0]) in containers.HEXDIGITS and chr(d[1]) in containers.HEXDIGITS):
+        same(ctx, "auto-binary:arguments", summary(O.run_decode(case.type, d, marshal=Auto.marshal, **kw)), base, dict(payload, container="auto-binary"), what)
+
+
+def check_long_text(ctx, L, case):
+    """A long stream (hundreds of messages) through the two text front ends, judged outside hypothesis."""
+    from tpmstream.io.hex import Hex
+    from tpmstream.io.swtpm_log import SWTPMLog
+
+    O.reset_state()
+    msgs = messages_of(L, case)
+    base = summary(O.run_decode("CommandResponseStream", case.data, strict=True))
+    payload = {"type": "CommandResponseStream", "data": case.data[:256], "note": "long stream, truncated"}
+    text = "\n".join(m.hex() for m in msgs)
+    ctx.case(("long-hex", len(msgs)), True, sample={"container": "hex", "messages": len(msgs), "bytes": len(case.data)})
+    if not same(ctx, "hex:long", summary(O.run_decode("CommandResponseStream", text.encode(), strict=True, marshal=Hex.marshal)), base, payload, f"stream of {len(msgs)} messages as hex text"):
+        return
+    log = "".join(f"SWTPM_IO_{'Read' if i % 2 == 0 else 'Write'}: length {len(m)}\n " + " ".join(f"{b:02X}" for b in m) + " \n" for i, m in enumerate(msgs))
+    ctx.case(("long-swtpm", len(msgs)), True, sample={"container": "swtpm-log", "messages": len(msgs)})
+    same(ctx, "swtpm-log:long", summary(O.run_decode("CommandResponseStream", log.encode(), strict=True, marshal=SWTPMLog.marshal)), base, payload, f"stream of {len(msgs)} messages as swtpm log")
+
+
 HEX_ALPHABET = ["0", "a", "F", "g", "+", "-", " ", "\n"]
 
 
@@ -248,6 +302,12 @@ def run_shard(ctx):
     ctx.run_given(st.tuples(gen.streams(L, max_pairs=3), st.data(), st.just(False)), lambda ex: check_stream(ctx, L, ex), ctx.share(900 if q else 12000), name="streams")
     ctx.run_given(st.tuples(gen.streams(L, max_pairs=2), st.data(), st.just(True)), lambda ex: check_stream(ctx, L, ex), ctx.share(300 if q else 4000), name="malformed-streams")
     ctx.run_given(st.tuples(gen.structures(L), st.data()), lambda ex: check_structure_hex(ctx, L, ex), ctx.share(400 if q else 5000), name="structures-hex")
+    ctx.run_given(st.tuples(gen.messages(L), st.data()), lambda ex: check_message_frontends(ctx, L, ex), ctx.share(600 if q else 8000), name="message-frontends")
+    if ctx.shard % 8 == 0:
+        collected = []
+        ctx.run_given(gen.long_streams(L), collected.append, 1, name="long-stream")
+        for c in collected:
+            ctx.run_plain(lambda c=c: check_long_text(ctx, L, c), "long-text")
 
 
 def replay(ctx, payload):
